@@ -2,6 +2,7 @@
   C17  Configuration loading: accepted means safe to run, rejected means an error.
   Model: AuthModel.Config.load (the pipeline of LocalConfigFile.Validate after protojson decoding).
 -/
+import AuthProofs.StateInventory
 import AuthProofs.Config
 import AuthModel.Generated.Facts
 namespace AuthProps.C17
@@ -84,6 +85,9 @@ def uX : UrlOracle := { parse := fun s => if s = B "https://h/cb" then some (B "
 example : (load uX okDoc).isSome = true := by decide
 example : load uX { okDoc with chains := [{ name := B "n", criterion := none, filters := [.none] }] } = none := by decide
 
+/-- NO HIDDEN STATE: regenerated inventory of package internal (loader, TLS pool, file watcher), internal/http and internal/k8s: the only mutable state is the watcher table, the pool map and the secret index. -/
+theorem no_hidden_state : InfraInventory := infra_inventory
+
 end AuthProps.C17
 
 #print axioms AuthProps.C17.accepted_resolved
@@ -94,3 +98,4 @@ end AuthProps.C17
 #print axioms AuthProps.C17.rejected_is_error
 #print axioms AuthProps.C17.untyped_filter_rejected
 #print axioms AuthProps.C17.scope_constant_matches_source
+#print axioms AuthProps.C17.no_hidden_state
